@@ -113,5 +113,5 @@ TStep == /\ l <= Len(T.h)
          /\ l' = l + 1
          /\ UNCHANGED <<tid, st, prev, last, plast, hist>>
 TSpec == TInit /\ [][TStep]_tvars
-Report == l = Len(T.h) + 1 => PrintT(<<"V", tid, bad>>)
+Report == l = Len(T.h) + 1 => PrintT(ToJson(<<"V", tid, bad>>))
 =============================================================================
